@@ -347,7 +347,9 @@ func TestC10_Compose(t *testing.T) {
 			// the second application is an error per the action's semantics the list stays as it was)
 			i := rapid.IntRange(0, len(patches)-1).Draw(t, "repeatedAt")
 			twice := append(append(append([]interface{}{}, patches[:i+1]...), deepCopyValue(patches[i])), patches[i+1:]...)
-			if again, err := refCompose(start, twice); err == nil {
+			// (not where JSON patch operations address the also-known-as list: they were drawn for the list as it stood, and
+			// whether a list emptied by the repetition reads as [] or as absent is unspecified - false alarm (10) of section 6)
+			if again, err := refCompose(start, twice); err == nil && !strings.Contains(refJCS(patches), "/alsoKnownAs") {
 				patches, ref = twice, again
 				labels = append(labels, "patch-twice-in-a-row")
 			}
